@@ -23,4 +23,17 @@ def queries(tier, kfs):
                                 unwind=max(16, n * (d + 1) + 3), solver='race', timeout=1200 if tier == 'quick' else 7200,
                                 bounds=dict(N=n, structure=sid, node=node, direction='single' if single else 'multi', k='scalar' if kscalar else 'array',
                                             area_exponent=mexp, steps=rounds, symbolic='elevation, area, K, dt, weights, distances')))
+
+    # two steps on the SAME eroder with the routes changed in between (a node eroded in step 1 is a pit / has other receivers in step 2):
+    # the second result must be the direct solution on the new routes; nothing of step 1 may survive
+    rer = [(1, 1, 3, 2, 1, 1, (1, 2)), (2, 2, 4, 2, 1, 0, (3,))]
+    if tier != 'quick':
+        rer += [(2, 2, 4, 2, 1, 0, (1,)), (3, 3, 4, 2, 0, 0, (3, 2))]
+    for (rid, sid, n, d, single, kscalar, nodes) in rer:
+        for node in nodes:
+            qs.append(Query('erode_rerouted.struct%d.to%d.node%d' % (sid, rid, node), 'spl.cpp', 'c13_erode.c', dict(FSV_N=n, FSV_D=d, FSV_SINGLE=single),
+                            dict(N=n, D=d, SINGLE=single, STRUCT=sid, REROUTE=rid, K_SCALAR=kscalar, ROUNDS=2, ONLY_NODE=node, MEXP='1.0', FSV_POW_SEQ=1),
+                            unwind=max(16, n * (d + 1) + 3), solver='race', timeout=1200 if tier == 'quick' else 7200,
+                            bounds=dict(N=n, structure=sid, rerouted_to=rid, node=node, direction='single' if single else 'multi', steps=2,
+                                        symbolic='elevation (both steps), area, K, dt, weights, distances')))
     return qs
